@@ -33,16 +33,29 @@ def conversions(repo, rep):
     ev.run()
     # structural: ((x - 2.5 pi) mod 2 pi) * R2D + 270, mod 360
     t = unparse(ed.node).replace(" ", "")
-    rets = [r for r in ast.walk(ed.node) if isinstance(r, ast.Return)]
-    rv = rets[-1].value
+    from ..astutil import returns as _rets
+    rr_ = _rets(ed.node)
+    rets = [x[0] for x in rr_]
+    rv = rr_[-1][1]
     if isinstance(rv, ast.BinOp) and isinstance(rv.op, ast.Mod) and repo.const(ed.module, rv.right) == 360 and "R2D" in unparse(rv):
         rep.ok("R-C13-1", f"{ed.file}:{rets[-1].lineno} extract_direction", unparse(rv), "radians -> degrees, reduced modulo 360")
     else:
         rep.fail("R-C13-1", ed.file, rets[-1].lineno, ed.qualname, unparse(rets[-1]), "directions must be converted to degrees (x R2D) and reduced modulo 360")
     n += 1
     # (dir, freq) -> (freq, dir)
-    rt = unparse(fi.node).replace(" ", "")
-    if "len(dirs),len(freqs))" in rt and "spec_arr.swapaxes(3,4)" in rt:
+    dname = fname = None
+    for c in ast.walk(fi.node):
+        if isinstance(c, ast.Call) and isinstance(c.func, ast.Attribute) and c.func.attr == "extend" and c.args and isinstance(c.args[0], ast.Call) \
+                and call_name(c.args[0]) == "map" and c.args[0].args:
+            m0 = unparse(c.args[0].args[0])
+            if m0 == "extract_direction":
+                dname = unparse(c.func.value)
+            elif m0 == "float" and fname is None:
+                fname = unparse(c.func.value)
+    resh = [c for c in ast.walk(fi.node) if isinstance(c, ast.Call) and isinstance(c.func, ast.Attribute) and c.func.attr == "reshape" and len(c.args) == 5]
+    swp = [c for c in ast.walk(fi.node) if isinstance(c, ast.Call) and isinstance(c.func, ast.Attribute) and c.func.attr == "swapaxes"
+           and [repo.const(fi.module, a_) for a_ in c.args] == [3, 4]]
+    if dname and fname and resh and swp and [unparse(a_).replace(" ", "") for a_ in resh[0].args[-2:]] == [f"len({dname})", f"len({fname})"]:
         rep.ok("R-C13-1", f"{fi.file} read_ww3_station", "reshape(..., ndir, nfreq).swapaxes(3, 4)", "file order (dir, freq) -> (freq, dir)")
     else:
         rep.fail("R-C13-1", fi.file, fi.node.lineno, fi.qualname, "axis order", "WW3 station blocks are (dir, freq): they must be reshaped so and swapped to (freq, dir)")
@@ -65,29 +78,37 @@ def conversions(repo, rep):
         if not ok:
             rep.fail("R-C13-1", f2.file, f2.node.lineno, f2.qualname, "density conversion", "XWaves densities (per radian) are not converted to per degree")
     ob = repo.module("wavespectra.input.obscape")
-    hits = [b for b in ast.walk(ob.tree) if isinstance(b, ast.BinOp) and isinstance(b.op, (ast.Mult, ast.Div))
-            and isinstance(repo.const(ob, b.right if isinstance(b.op, ast.Mult) else b.right), float)]
+    from .c12 import _const_factor
+
+    class _FI:      # minimal stand-in so that _const_factor can constant-evaluate in the module
+        module = ob
     okob = False
-    for b in hits:
-        c = repo.const(ob, b.right)
-        f = c if isinstance(b.op, ast.Mult) else 1 / c
-        if abs(f - 0.017453292519943295) < 1e-12:
-            okob = True
-            n += 1
-            rep.ok("R-C13-1", f"{ob.relpath}:{b.lineno} obscape", unparse(b)[:70], "per radian -> per degree")
+    for b in ast.walk(ob.tree):
+        if isinstance(b, ast.BinOp) and isinstance(b.op, (ast.Mult, ast.Div)) and not isinstance(getattr(b, "_parent", None), ast.BinOp):
+            c = _const_factor(repo, _FI, b)
+            if abs(c - 0.017453292519943295) < 1e-12 and repo.const(ob, b) is UNKNOWN:
+                okob = True
+                n += 1
+                rep.ok("R-C13-1", f"{ob.relpath}:{b.lineno} obscape", unparse(b)[:70], "per radian -> per degree (constant factor pi/180)")
     if not okob:
-        # the factor may be spelled x * np.pi / 180
-        txt = ob.src.replace(" ", "")
-        if "*np.pi/180" in txt or "*(np.pi/180)" in txt:
-            n += 1
-            rep.ok("R-C13-1", f"{ob.relpath} obscape", "* np.pi / 180", "per radian -> per degree")
-        else:
-            rep.fail("R-C13-1", ob.relpath, 1, "wavespectra.input.obscape", "density conversion", "Obscape densities (per radian) are not converted to per degree")
+        rep.fail("R-C13-1", ob.relpath, 1, "wavespectra.input.obscape", "density conversion", "Obscape densities (per radian) are not converted to per degree")
     # SWAN ASCII: / E2V only for J units; to_nautical only for CDIR
     sf = repo.cls("wavespectra.core.swan.SwanSpecFile")
     init, rd = sf.methods["__init__"], sf.methods["read"]
-    it = unparse(init.node).replace(" ", "")
-    if 'ifunits.upper().startswith("J"):self.units_factor=E2Velse:self.units_factor=1.0' in it.replace("'", '"').replace("\n", "") and "Snew/self.units_factor" in unparse(rd.node).replace(" ", ""):
+    def _self_assign(stmts, attr):
+        for st in stmts:
+            if isinstance(st, ast.Assign) and len(st.targets) == 1 and unparse(st.targets[0]) == f"self.{attr}":
+                return st.value
+        return None
+    uf_ok = False
+    for i_ in ast.walk(init.node):
+        if isinstance(i_, ast.If) and any(isinstance(c, ast.Call) and isinstance(c.func, ast.Attribute) and c.func.attr == "startswith" and c.args
+                                          and repo.const(init.module, c.args[0]) == "J" for c in ast.walk(i_.test)) and not isinstance(i_.test, ast.UnaryOp):
+            tv, fv = _self_assign(i_.body, "units_factor"), _self_assign(i_.orelse, "units_factor")
+            if tv is not None and fv is not None and unparse(tv) == "E2V" and repo.const(init.module, fv) == 1.0:
+                uf_ok = True
+    div_ok = any(isinstance(b_, ast.BinOp) and isinstance(b_.op, ast.Div) and unparse(b_.right) == "self.units_factor" for b_ in ast.walk(rd.node))
+    if uf_ok and div_ok:
         rep.ok("R-C13-1", f"{init.file} SwanSpecFile", "J/m2 -> divide by rho g; otherwise factor 1", "ENERGY vs VaDens units")
     else:
         rep.fail("R-C13-1", init.file, init.node.lineno, init.qualname, "units factor", "energy-density files (J/m2/..) must be divided by rho*g, variance-density files left unchanged")
@@ -96,12 +117,32 @@ def conversions(repo, rep):
         rep.ok("R-C13-1", "wavespectra/core/swan.py E2V", f"{e2v}", "rho g with rho = 1025, g = 9.81 (SWAN's constants)")
     else:
         rep.fail("R-C13-1", "wavespectra/core/swan.py", 1, "wavespectra.core.swan", f"E2V = {e2v}", "E2V must be rho*g = 1025*9.81")
-    if "ifself.ndir:self.dirs=np.array([float(val)forvalinself.ndir])else:self.dirs=to_nautical(" in it.replace("\n", ""):
+    dc_ok = False
+    for i_ in ast.walk(init.node):
+        if isinstance(i_, ast.If) and unparse(i_.test) == "self.ndir":
+            tv, fv = _self_assign(i_.body, "dirs"), _self_assign(i_.orelse, "dirs")
+            if tv is not None and fv is not None:
+                t_conv = any(isinstance(c, ast.Call) and call_name(c) == "to_nautical" for c in ast.walk(tv))
+                f_conv = isinstance(fv, ast.Call) and call_name(fv) == "to_nautical" and "self.cdir" in unparse(fv)
+                dc_ok = (not t_conv) and f_conv and "self.ndir" in unparse(tv)
+    if dc_ok:
         rep.ok("R-C13-1", f"{init.file} SwanSpecFile", "NDIR as is; CDIR through to_nautical", "cartesian directions converted, nautical ones not")
     else:
         rep.fail("R-C13-1", init.file, init.node.lineno, init.qualname, "direction convention", "only CDIR (cartesian) directions may be passed through to_nautical")
     tn = repo.func("wavespectra.core.utils.to_nautical")
-    if unparse(tn.node.body[-1]).replace(" ", "") == "returnnp.mod(270-ang,360)":
+    from ..astutil import returns as _rets2
+    tv_ = _rets2(tn.node)
+    rv_ = tv_[-1][1] if tv_ else None
+    def _is_tn(e):
+        if isinstance(e, ast.Call) and call_name(e).split(".")[-1] == "mod" and len(e.args) == 2:
+            x, m = e.args
+        elif isinstance(e, ast.BinOp) and isinstance(e.op, ast.Mod):
+            x, m = e.left, e.right
+        else:
+            return False
+        return repo.const(tn.module, m) == 360 and isinstance(x, ast.BinOp) and isinstance(x.op, ast.Sub) and repo.const(tn.module, x.left) == 270 \
+            and unparse(x.right) == tn.params[0]
+    if len(tv_) == 1 and _is_tn(rv_):
         rep.ok("R-C13-1", f"{tn.file}:{tn.node.lineno} to_nautical", "mod(270 - ang, 360)", "cartesian going-to -> nautical coming-from")
     else:
         rep.fail("R-C13-1", tn.file, tn.node.lineno, tn.qualname, unparse(tn.node.body[-1]), "to_nautical must be (270 - ang) mod 360")
@@ -135,14 +176,24 @@ def passthrough_and_product(repo, rep):
         names = {unparse(v.left), unparse(v.right)} if isinstance(v, ast.BinOp) and isinstance(v.op, ast.Mult) else set()
         cw = [c for c in ast.walk(g) if isinstance(c, ast.Call) and call_name(c) == "cartwright"]
         okcw = False
+
+        def dir_is_axis(nm):
+            # the `dir` argument is the local built as the DataArray of the output direction axis (dims = DIRNAME)
+            for a_ in ast.walk(fi.node):
+                if isinstance(a_, ast.Assign) and isinstance(a_.targets[0], ast.Name) and a_.targets[0].id == nm:
+                    for c_ in ast.walk(a_.value):
+                        if isinstance(c_, ast.Call) and call_name(c_).split(".")[-1] == "arange" and [unparse(x) for x in c_.args] == ["0", "360", "dd"]:
+                            return True
+            return False
         if cw:
             kws = {k.arg: unparse(k.value) for k in cw[0].keywords}
-            okcw = kws.get("dm", "").endswith(".dmf") and kws.get("dspr", "").endswith(".dsprf") and kws.get("dir") == "dir" and "under_90" not in kws
+            okcw = kws.get("dm", "").endswith(".dmf") and kws.get("dspr", "").endswith(".dsprf") and dir_is_axis(kws.get("dir")) and "under_90" not in kws
         spread_name = None
         for s in ast.walk(g):
             if isinstance(s, ast.Assign) and isinstance(s.value, ast.Call) and call_name(s.value) == "cartwright":
                 spread_name = s.targets[0].id
-        if okcw and names == {f"dset.{spec}", spread_name}:
+        other = names - {spread_name}
+        if okcw and spread_name in names and len(other) == 1 and (next(iter(other)).endswith(f".{spec}") or next(iter(other)).endswith(f"['{spec}']")):
             rep.ok("R-C13-4", f"{fi.file}:{stores_in[0].lineno} {fi.short}", unparse(stores_in[0]), "2-D = 1-D x normalised spreading (mean direction and spread per frequency)")
         else:
             rep.fail("R-C13-4", fi.file, stores_in[0].lineno, fi.qualname, unparse(stores_in[0])[:100] + ("; " + unparse(cw[0])[:80] if cw else ""),
